@@ -171,6 +171,46 @@ def gen_program(rng, nclasses=None):
     return classes
 
 
+def add_code_twins(classes, rng):
+    """Opt-in (own rng, the programs of gen_program stay what they are): give some methods a TWIN - a further method with the very same body
+    (same instruction objects, same register / ins size, hence a byte-identical code_item) under another name or another descriptor of the same
+    width, in the same class or in another one. A writer that deduplicates code items (dexw option share_identical_code_items) then makes the
+    twins share ONE code_item (identical code_off in several encoded_method entries - what dexlayout / D8 emit for identical bodies). Every twin has
+    its own sites: each instruction of the shared code is an instruction of BOTH methods. Returns the list of (original, twin) MethodSpecs."""
+    keys = {m.key for c in classes for m in c.methods}
+    same_width = {("I",): [("F",), ("Z",), ("Ljava/lang/Object;",)], ("J", "I"): [("D", "I"), ("I", "J"), ("I", "I", "I")]}
+    pairs = []
+    for c in list(classes):
+        for m in list(c.methods):
+            if m.name.startswith("<") or getattr(m, "twin_of", None) or rng.random() >= 0.4:
+                continue
+            for _ in range(rng.choice([1, 1, 2])):
+                home = c if rng.random() < 0.7 or len(classes) < 2 else rng.choice(classes)
+                if not home.methods:
+                    home = c        # a constant-holder class stays without methods
+                how = rng.randrange(3)
+                name, params = m.name, m.params
+                if how == 0 and m.params in same_width:
+                    params = rng.choice(same_width[m.params])        # an overload: same name, other descriptor of the same register width
+                elif how <= 1:
+                    name = m.name + rng.choice(["$twin", "Copy", "_"])
+                else:
+                    name = rng.choice(["a", "zz", "shared"]) + m.name   # sorts before / after the original in the method_id pool
+                t = MethodSpec(home.name, name, m.ret, params, m.static)
+                if t.key in keys:
+                    continue
+                keys.add(t.key)
+                t.insns = m.insns                   # the same list: the same instruction (and reference) objects
+                t.sites = list(m.sites)
+                t.extra_flags = getattr(m, "extra_flags", 0)
+                t.twin_of = m
+                if getattr(m, "stub", False):
+                    t.twin_of_stub = True           # (not .stub: the rename hook of C15 looks for the one stub only)
+                home.methods.insert(rng.randrange(len(home.methods) + 1), t)
+                pairs.append((m, t))
+    return pairs
+
+
 def to_model(classes):
     model = W.DexModel()
     for c in classes:
